@@ -34,13 +34,25 @@ func vExactMember(groups, admin string) bool {
 	return false
 }
 
-// VerifC14: Set is permitted iff one of the caller's groups is exactly one of the admin groups.
+// VerifC14: with identity metadata attached, Set is permitted iff one of the caller's groups is exactly one of
+// the admin groups. Scenario 0: "groups" present (any text, incl. empty); scenario 1: identity present (name)
+// but no "groups" key at all -> must be refused.
 func VerifC14() {
-	groups := verifrt.NondetString("groups", 3, "aA;")
-	admin := verifrt.NondetString("admin", 3, "aA,")
+	lg, la := verifrt.Param("groupslen"), verifrt.Param("adminlen")
+	admin := verifrt.NondetString("admin", la, "abA,")
 	verifrt.SetEnv("ADMINGROUPS", admin)
 	md := metautils.NiceMD{}
-	md.Set("groups", groups)
+	groups := ""
+	if verifrt.Fork("scenario", 2) == 0 {
+		groups = verifrt.NondetString("groups", lg, "abA;")
+		md.Set("groups", groups)
+		if verifrt.NondetBool("withname") {
+			md.Set("name", "alice")
+		}
+	} else {
+		md.Set("name", "alice")
+		md.Set("preferred_username", "alice")
+	}
 	err := TemporaryEvaluate(md)
 	verifrt.Cover("end")
 	want := vExactMember(groups, admin)
